@@ -13,6 +13,7 @@ CONSTANTS
  LockPut = TRUE
  LockDel = FALSE
  LockDelEarly = FALSE
+ ObsFilters = {"none", "t1"}
  CowIndex = FALSE
 INIT MInit
 NEXT MNext
